@@ -24,6 +24,7 @@ import (
 //	add <hex> <n>               Write; Commit; slot := Save(n); slot', err := Add(slot); if err != nil { Discard(slot) }; handle = #successful adds so far
 //	off <handle>                slot := Offset(held[handle]); SavedSlot(slot); Discard(slot)   ("skip" for a handle not held)
 //	reset                       offsetter.Reset()   ("skip" while slots are held: outside the contract)
+//	resetall                    sequencer.Reset(); buffer.DiscardAll()   (sequencer stream, with whatever is parked)
 //
 // A Push between a Pop and its Discard is outside the documented contract and is never produced.
 func init() {
@@ -205,8 +206,13 @@ func slotsGen(r *rng, maxops int, w *bufio.Writer) {
 				g.park(g.seq(), g.size())
 			}
 		}
-	case 2: // free mix
+	case 2: // free mix, with the sequencer reset now and then while packets are parked (after out-of-order takes)
 		for i := 0; i < n; i++ {
+			if r.intn(14) == 0 {
+				fmt.Fprintf(w, "! resetall\n")
+				g.parked = nil
+				continue
+			}
 			if r.intn(20) < 11 {
 				g.park(g.seq(), g.size())
 			} else {
@@ -416,6 +422,14 @@ func slotsRun(script []string, w *bufio.Writer) {
 				ad := addressed(slot)
 				b.Discard(slot)
 				out = fmt.Sprintf("off %d %d %s %s", slot.Index, slot.Length, ad, slHx(b.Saved()))
+			case "resetall":
+				if sq == nil {
+					out = "skip"
+					break
+				}
+				sq.Reset()
+				b.DiscardAll()
+				out = "unit"
 			case "reset":
 				if len(held) > 0 {
 					out = "skip"
